@@ -272,7 +272,7 @@ func (e *execState) checkQueries(bo *blockObs) {
 				return 0, nil, fmt.Errorf("code=%d %s %v", code, log, err)
 			}
 			for _, q := range resp.VestingQueue {
-				got = append(got, fmt.Sprintf("%d/%d/%s/%v", q.AuctionId, q.ReleaseTime.UnixNano(), q.PayingCoin.Amount, q.Released))
+				got = append(got, fmt.Sprintf("%d/%d/%s/%v", q.AuctionId, nsOf(q.ReleaseTime), q.PayingCoin.Amount, q.Released))
 			}
 			if resp.Pagination == nil {
 				return len(resp.VestingQueue), nil, nil
